@@ -3,7 +3,7 @@
    Models/TensorObj.v, the proofs in Models/TensorObjProofs.v. *)
 From Coq Require Import ZArith NArith List Bool String Permutation.
 From ADC Require Import Core.Scalar Core.Index Core.Expr Core.Canon.
-From ADC Require Import Models.TensorObj Models.TensorObjProofs.
+From ADC Require Import Models.TensorObj Models.TensorObjProofs Models.TensorObjExpr.
 Import ListNotations.
 Local Notation length := List.length.
 
@@ -214,6 +214,19 @@ Theorem C06_assumptions_value : forall (S : Scalar) (T : tmodel S), sym_respects
   end.
 Proof. exact assume_sound. Qed.
 Print Assumptions C06_assumptions_value.
+
+(* The same on whole expressions: Expr(e, real, sym_tensors, antisym_tensors)
+   (terms and factors re-canonicalised one tensor at a time, zero terms dropped)
+   has the value of e for every choice of target indices and every assignment,
+   in every model that satisfies the assumptions for the tensors of e. *)
+Theorem C06_assumptions_value_expr : forall (S : Scalar) (T : tmodel S),
+  sym_respects S T -> two_regular S ->
+  forall (real : bool) syms antis (e : expr),
+  (forall t, In t e -> facs_satisfy S T real syms antis (tfacs t)) ->
+  forall e', assume_expr real syms antis e = Some e' ->
+  forall tg r, eval S T tg r e = eval S T tg r e'.
+Proof. exact assume_expr_value. Qed.
+Print Assumptions C06_assumptions_value_expr.
 
 (* The hypotheses are satisfiable together (rationals, a non-trivial model). *)
 Theorem C06_hypotheses_satisfiable :
